@@ -45,7 +45,7 @@ func (c *Case) Settings(kt *keytab.Keytab) *service.Settings {
 		opts = append(opts, service.RequireHostAddr(true))
 	}
 	if c.ClientAddr != "" {
-		opts = append(opts, service.ClientAddress(types.HostAddress{AddrType: 2, Address: AddrBytes(c.ClientAddr)}))
+		opts = append(opts, service.ClientAddress(types.HostAddress{AddrType: AddrType(c.ClientAddr), Address: AddrBytes(c.ClientAddr)}))
 	}
 	switch c.KtPrinc {
 	case "alt":
